@@ -262,7 +262,15 @@ func mapReduceWithPanicChan(source <-chan any, panicChan *onceChan, mapper Mappe
 			return nil, err
 		} else if ok {
 			return v, nil
-		} else {
+		}
+
+		// output 已关闭且无结果：若上下文已结束，聚合器的写入是被 guardedWriter 丢弃的（或加工根本未进行），
+		// 而 select 在两个就绪分支中随机选中了本分支；此时应与上下文分支一致，而不是报告"未写入输出值"。
+		select {
+		case <-options.ctx.Done():
+			cancel(context.DeadlineExceeded)
+			return nil, context.DeadlineExceeded
+		default:
 			return nil, ErrReduceNoOutput
 		}
 	}
